@@ -28,6 +28,7 @@ def run(chk):
     )
     chk.not_decided = "absence of hangs and of super-linear work; exceptions of constructs outside the external-raiser table (e.g. IndexError on attacker-positioned indexes)."
     chk.explanation += " Also decided: the obs-fold loop compares a running total with max_field_size. After the defect hunt: framing errors are published on the body stream in their wrapped form; limit violations inside a chunked body are re-raised by the head parser."
+    chk.explanation += " Second hunt: yarl's IndexError (empty host after a bracketed userinfo) is in the raiser table and must be converted like ValueError."
     chk.assumptions.append("external-raiser table of DESIGN section 2 is complete for what these parsers call; everything else is assumed not to raise")
     eff = Effects(repo, int_gate=lambda c: C01.int_cannot_raise(c, folder))
 
